@@ -414,6 +414,25 @@ def _guard_charset(prog, b, bb):
             if members is not None and contains_call(d.a[1][1], lambda n: n == kfn) is not None:
                 sets.append(members if pol else {chr(c) for c in range(0x20, 0x7f)} - members)
                 continue
+        if d.k == "call" and (d.a[0].endswith("Iterator>::any") or d.a[0].endswith("Iterator::any")) and len(d.a[1]) == 2:
+            # TABLE.iter().any(|&m| m == character): the table's members, when the closure is a plain equality with the key's character
+            src = d.a[1][0]
+            arr = None
+            for x in src.walk():
+                xs = x
+                if is_const(xs, "array"):
+                    arr = {chr(v) for v in const_val(xs) if isinstance(v, int)}
+                elif xs.k == "agg" and xs.a[0] == "array" and all(is_const(strip_refs(y), "char") for y in xs.a[1]):
+                    arr = {const_val(strip_refs(y)) for y in xs.a[1]}
+            clo = strip_refs(d.a[1][1])
+            if arr is not None and clo.k == "agg" and str(clo.a[0]).startswith("closure:"):
+                cb_ = prog.body(clo.a[0][8:])
+                ret_ = strip_refs(cb_.expr_local(0))
+                ups = [strip_refs(u) for u in clo.a[1]]
+                key_up = any(contains_call(u, lambda n: n == kfn) is not None for u in ups)
+                if ret_.k == "bin" and ret_.a[0] == "Eq" and key_up:
+                    sets.append(arr if pol else {chr(c) for c in range(0x20, 0x7f)} - arr)
+                    continue
         if d.k == "call" and d.a[0] in prog.fns and prog.fns[d.a[0]].get("inputs") == ["char"] and contains_call(d.a[1][0], lambda n: n == kfn) is not None:
             pe = PredEval(prog)
             cs = pe.char_set(d.a[0], [chr(c) for c in range(0x20, 0x7f)])
